@@ -46,6 +46,7 @@ def run(ctx):
     safety_rule(ctx, syn)
     scan_rule(ctx, syn)
     parse_rule(ctx, syn)
+    merge_rule(ctx, syn)
 
 
 # ====================================================================== TEST
@@ -790,3 +791,46 @@ def parse_rule(ctx, syn):
         ctx.report(r, "unevaluated", "parse_dataoperator could not be evaluated (%s): the meaning of the operators of the query language is not established" % e, pf.file, pf.line)
     r.obligations = r.discharged = n
     ctx.floor(r, n, 1300, "operator denotations compared")
+
+
+# ====================================================================== MERGE
+def merge_rule(ctx, syn):
+    """Storable::merge of AnnotationDataSet (run when a second store or file brings data for a set that exists already):
+    AnnotationData refers to its key by *handle*; the keys of the other set get handles of this set when they are
+    inserted, so each merged data item must be re-pointed to the handle its key received here."""
+    r = ctx.rule("C10.MERGE", "when a dataset is merged into an existing one, every merged data item is re-pointed to the handle its key received in the receiving set (data refers to keys by handle, and the two sets number their keys independently)")
+    fs = [f for f in syn.fns if f.name == "merge" and f.file == "src/annotationdataset.rs" and (f.self_ty or "") == "AnnotationDataSet" and f.body is not None]
+    if len(fs) != 1:
+        ctx.anchor_missing(r, "<AnnotationDataSet as Storable>::merge")
+        return
+    fn = fs[0]
+    ctx.functions_analysed.add(fn.qual)
+    loops = list(find(fn.body, "for"))
+    keyloop = [lp for lp in loops if unparse(lp["iter"]).endswith(".keys")]
+    dataloop = [lp for lp in loops if unparse(lp["iter"]).endswith(".data")]
+    if len(keyloop) != 1 or len(dataloop) != 1:
+        ctx.anchor_missing(r, "loops over other.keys / other.data in AnnotationDataSet::merge")
+        return
+    r.hit("loops")
+    # names that receive the handles returned by self.insert(key) in the key loop
+    recv = set()
+    for n in walk(keyloop[0]["body"]):
+        if n.get("k") == "mcall" and n["method"] in ("push", "insert", "extend") and "self.insert(" in unparse(n).replace(" ", "") and strip(n["recv"]).get("k") == "path":
+            recv.add(strip(n["recv"])["path"][0])
+        if n.get("k") == "let" and n.get("init") is not None and "self.insert(" in unparse(n["init"]).replace(" ", ""):
+            recv.update(pat_names(n["pat"]))
+        if n.get("k") == "assign" and "self.insert(" in unparse(n["right"]).replace(" ", ""):
+            l = strip(n["left"])
+            while l.get("k") in ("index", "field"):
+                l = strip(l["base"])
+            if l.get("k") == "path":
+                recv.add(l["path"][0])
+    assigns = [n for n in walk(dataloop[0]["body"]) if n.get("k") == "assign" and strip(n["left"]).get("k") == "field" and strip(n["left"])["member"] == "key"]
+    inserts = [n for n in walk(dataloop[0]["body"]) if n.get("k") == "mcall" and n["method"] in ("insert", "insert_data", "build_insert_data") and unparse(strip(n["recv"])) == "self"]
+    r.hit("data-loop", sample={"handle_receivers_in_key_loop": sorted(recv), "key_assignments_in_data_loop": len(assigns), "inserts": len(inserts)})
+    if not inserts:
+        ctx.anchor_missing(r, "self.insert(data) in the data loop of merge")
+        return
+    good = [a for a in assigns if any(x.get("k") == "path" and len(x["path"]) == 1 and x["path"][0] in recv for x in walk(a["right"]))]
+    if not good:
+        ctx.report(r, "key-not-remapped", "AnnotationDataSet::merge inserts the data of the other set with the key handles of the *other* set%s: after the merge a data item is listed under whatever key has that number here (key.data() and find_data(key, ..) answer for the wrong key)" % ("" if not assigns else " (the key is assigned, but not from the handles returned by inserting the other set's keys)"), fn.file, inserts[0].get("l"))
